@@ -37,7 +37,7 @@ fn corpus(family: &str, thorough: bool) -> Corpus {
         "record" => Corpus {
             structs: {
                 let mut v = cat::tls_records(2, true);
-                for m in cat::hellos_with_extension_lists().into_iter().filter(|w| w.lens.first().map_or(false, |l| l.label == "hs_len")).step_by(n(5, 2)) {
+                for m in cat::hellos_with_extension_lists().into_iter().filter(|w| w.lens.first().map_or(false, |l| l.label == "hs_len")).step_by(n(9, 2)) {
                     v.push(cat::record(0x16, 0x0303, |w| {
                         w.append(&m);
                     }));
@@ -56,7 +56,7 @@ fn corpus(family: &str, thorough: bool) -> Corpus {
             structs: {
                 let mut v = cat::handshake_messages(true);
                 v.extend(cat::handshake_all_types());
-                v.extend(cat::hellos_with_extension_lists().into_iter().filter(|w| w.lens.first().map_or(false, |l| l.label == "hs_len")).step_by(n(2, 1)));
+                v.extend(cat::hellos_with_extension_lists().into_iter().filter(|w| w.lens.first().map_or(false, |l| l.label == "hs_len")).step_by(n(4, 1)));
                 v.extend(cat::magic_hellos().into_iter().filter(|w| w.lens.first().map_or(false, |l| l.label == "hs_len")));
                 v.extend(cat::handshake_many().into_iter().step_by(4));
                 v.extend(cat::tls13_messages().into_iter().filter(|w| w.buf.len() < 20000));
@@ -71,7 +71,7 @@ fn corpus(family: &str, thorough: bool) -> Corpus {
         "hsbody" => Corpus {
             structs: {
                 let mut v = cat::handshake_messages(true);
-                v.extend(cat::hellos_with_extension_lists().into_iter().filter(|w| w.lens.first().map_or(false, |l| l.label == "hs_len")).step_by(n(3, 1)));
+                v.extend(cat::hellos_with_extension_lists().into_iter().filter(|w| w.lens.first().map_or(false, |l| l.label == "hs_len")).step_by(n(6, 1)));
                 strip(&v, 4)
             },
             alpha: Alpha::new(&[&[0x00, 0x01, 0x02, 0x03, 0x7f, 0xff], &[0x00, 0x01, 0x02, 0x03, 0x12, 0xff]], &[0x00, 0x01, 0x02, 0x03, 0x04, 0xff]),
@@ -133,7 +133,7 @@ fn corpus(family: &str, thorough: bool) -> Corpus {
                 v
             },
             alpha: small.clone(),
-            alpha_n: n(8, 9),
+            alpha_n: n(7, 9),
         },
         "sct" => Corpus {
             structs: {
